@@ -680,3 +680,75 @@ def alloc_iter_shape(n: size, y: f32[n]):
             u[i + j] = y[i]
             y[i] = u[i + j] * 2.0
 ''')
+
+# --- lift_scope situations (if-in-if without else, for-in-if, if-in-for with configuration)
+add("ls_if_then", '''
+@proc
+def ls_if_then(a: bool, b: bool, y: f32[2]):
+    if a:
+        if b:
+            y[0] = 1.0
+    else:
+        y[1] = 2.0
+''')
+
+add("ls_if_else", '''
+@proc
+def ls_if_else(a: bool, b: bool, y: f32[2]):
+    if a:
+        y[0] = 1.0
+    else:
+        if b:
+            y[1] = 2.0
+''')
+
+add("ls_for_in_if", '''
+@proc
+def ls_for_in_if(n: size, y: f32[8]):
+    if n > 2:
+        for i in seq(2, n):
+            y[0] += 1.0
+''')
+
+add("ls_cfg_guard", '''
+@config
+class CfgL:
+    x: index
+
+@proc
+def ls_cfg_guard(n: size, y: f32[8]):
+    if CfgL.x == 0:
+        for i in seq(0, n):
+            CfgL.x = 1
+            y[0] += 1.0
+''')
+
+# (the two shapes in ONE procedure make the front end's bounds checker crash with `assert False, "bad case"`:
+#  expr_to_smt has no case for a configuration read inside the predicate of a later statement's effect)
+add("ls_cfg_guard2", '''
+@config
+class CfgM:
+    x: index
+
+@proc
+def ls_cfg_guard2(n: size, y: f32[8]):
+    for i in seq(0, n):
+        if CfgM.x == 0:
+            CfgM.x = 1
+            y[1] += 1.0
+''')
+
+# --- scoping of window definitions / allocations under fission and reorder_stmts
+add("win_in_loop", '''
+@proc
+def win_in_loop(n: size, A: f32[n + 2, n + 2], b: f32[n]):
+    for i in seq(0, n):
+        dst = A[i + 1, 1:n + 1]
+        for j in seq(0, n):
+            dst[j] += b[j]
+    if n > 1:
+        x: f32[4]
+        w = x[0:2]
+        w[0] = 1.0
+        b[0] = w[0]
+''')
